@@ -429,6 +429,36 @@ def r12d(ctx, run):
                                     % (wn1 % an, wn2 % bn, tyname(ab), (wn1 % an) if not fa else (wn2 % bn)))
     run.check(n_wrapped >= 3 * len(names) * len(names) - 40, f.site(), "one operand wrapped (?a / distinct a / str!a against b): %d pairs order-independent, accepted pairs accept both" % n_wrapped,
               "Ty::max", "wrapped-evaluated", f.file, f.ln, "only %d of %d wrapped pairs could be evaluated" % (n_wrapped, 3 * len(names) * len(names)))
+    # pairs of DIFFERENT kinds where exactly one side is implicitly accepted as the other (pointers of different mutability, pointer / rawptr, array /
+    # slice, named / anonymous struct, anything / any, function / function pointer): the answer must not depend on which side comes first
+    i32_ = sc["i32"]
+
+    def memb(n_, t_):
+        return Obj("MemberTy", name=Term(n_), ty=t_)
+    mixed = {
+        "^i32": Variant("Ty::Pointer", {"mutable": False, "sub_ty": i32_}), "^mut i32": Variant("Ty::Pointer", {"mutable": True, "sub_ty": i32_}),
+        "rawptr": Variant("Ty::RawPtr", {"mutable": False}), "mut rawptr": Variant("Ty::RawPtr", {"mutable": True}),
+        "[]i32": Variant("Ty::Slice", {"sub_ty": i32_}), "[2]i32": Variant("Ty::ConcreteArray", {"size": 2, "sub_ty": i32_}), "rawslice": Variant("Ty::RawSlice"),
+        "any": Variant("Ty::Any"), "i32": i32_, "str": Variant("Ty::String"),
+        "struct S{a: i32}": Variant("Ty::ConcreteStruct", {"uid": 5, "members": [memb("a", i32_)]}), ".{a: i32}": Variant("Ty::AnonStruct", {"members": [memb("a", i32_)]}),
+    }
+    mnames = list(mixed)
+    n_mixed = 0
+    for i_, an in enumerate(mnames):
+        for bn in mnames[i_ + 1:]:
+            a, b = mixed[an], mixed[bn]
+            key = "mixed:%s,%s" % (an, bn)
+            try:
+                ab, ba = w.call("max", a, [b]), w.call("max", b, [a])
+            except (Panic, CannotEstablish) as c:
+                # member-wise struct arms etc.: not every pair can be evaluated; those are not counted
+                continue
+            n_mixed += 1
+            if is_none(ab) != is_none(ba) or (not is_none(ab) and ab != ba):
+                run.finding("Ty::max", key, f.file, f.ln, "max(%s, %s) = %s but max(%s, %s) = %s: whether `if c { x } else { y }` is accepted, and at which type, depends on the order "
+                            "of its branches" % (an, bn, "none" if is_none(ab) else tyname(ab), bn, an, "none" if is_none(ba) else tyname(ba)))
+    run.check(n_mixed >= 40, f.site(), "pairs of different kinds: %d pairs give the same answer in both orders" % n_mixed, "Ty::max", "mixed-evaluated", f.file, f.ln,
+              "only %d pairs of different kinds could be evaluated" % n_mixed)
     # constructors with symbolic members, both orders (recursive answers symmetric by hypothesis)
     s, t, m = T("s"), T("t"), T("m")
     for desc, key, A, B in (
